@@ -158,7 +158,10 @@ def check_schedule(ctx, R="C19.schedule"):
     if set(branches) < {"choose", "shuffle"}:
         raise AnalysisError("shape not recognised: schedule branches of _invokeSubBehavior")
     subsp, agentp = fn.args.args[2].arg, fn.args.args[1].arg
-    pickn = [f.name for f in ast.walk(fn) if isinstance(f, ast.FunctionDef) and f is not fn and any(isinstance(c, ast.Call) and dotted(c.func) == "Options" for c in ast.walk(f))]
+    # the picking helper: the nested function that filters by eligibility (however it then draws)
+    pickn = [f.name for f in ast.walk(fn) if isinstance(f, ast.FunctionDef) and f is not fn and any(isinstance(c, ast.Call) and isinstance(c.func, ast.Attribute) and c.func.attr == "_isEnabledForAgent" for c in ast.walk(f))]
+    if len(pickn) != 1:
+        raise AnalysisError("shape not recognised: the picking helper of _invokeSubBehavior")
     ch = branches["choose"]
     last = lib.core(ch.body)[-1]
     if pickn and unparse(last) == f"{subsp} = ({pickn[0]}({subsp}),)":
@@ -169,7 +172,6 @@ def check_schedule(ctx, R="C19.schedule"):
     sched = [f for f in ast.walk(sh) if isinstance(f, ast.FunctionDef) and any(isinstance(n, ast.While) for n in f.body)]
     good = False
     subsp, agentp = fn.args.args[2].arg, fn.args.args[1].arg
-    pickn = [f.name for f in ast.walk(fn) if isinstance(f, ast.FunctionDef) and f is not fn and any(isinstance(c, ast.Call) and dotted(c.func) == "Options" for c in ast.walk(f))]
     if sched and pickn:
         wl = [n for n in sched[0].body if isinstance(n, ast.While)]
         if wl and unparse(wl[0].test) == subsp:
@@ -334,7 +336,7 @@ def check_rewind(ctx, R="C19.rewind"):
         )
     if not bad:
         ctx.ok(R, model.module(DI).tree.body[0], "no restore / reseed of the global generators in run-time code")
-    ctx.floor(R, n_ctrl, 2, "setstate / set_state calls found in Scenario.generate (positive control)")
+    ctx.floor(R, n_ctrl, 1, "setstate / set_state calls found in Scenario.generate (positive control)")
 
 
 def check(ctx):
